@@ -20,7 +20,7 @@
 // C03 applies to each of its per-session sends from the instant that send has returned (its `ret`), as for
 // any directed message; the record `f … mode=detached` is evidence only.
 //
-// Transports: mem io sse sh shj she shje (both topologies), sl slj (topology A; a stateless server has no
+// Transports: mem io sse sh shj she shje (both topologies), sl slj sn snj (topology A; a sessionless server has no
 // session to send from).  The raw streamable peer (rw rwj rh) is a hand-written client and has no notifying
 // method.  Not part of the repository; grafted into package mcp by -overlay.
 package mcp
@@ -42,7 +42,7 @@ import (
 
 const ordFanURI = "file:///fan"
 
-var ordFanTransports = []string{"mem", "io", "sse", "sh", "shj", "she", "shje", "sl", "slj"}
+var ordFanTransports = []string{"mem", "io", "sse", "sh", "shj", "she", "shje", "sl", "slj", "sn", "snj"}
 
 var ordFanMethod = map[string]string{
 	notificationRootsListChanged:    "roots",
@@ -286,7 +286,7 @@ func (l *ordFanLink) connect(server *Server) (Transport, *ServerSession, error) 
 		hd := l.hd[server]
 		if hd == nil {
 			o := &StreamableHTTPOptions{}
-			rest := strings.TrimPrefix(strings.TrimPrefix(l.tr, "sh"), "sl")
+			rest := l.tr[2:]
 			o.Stateless = strings.HasPrefix(l.tr, "sl")
 			o.JSONResponse = strings.Contains(rest, "j")
 			if strings.Contains(rest, "e") {
@@ -302,12 +302,16 @@ func (l *ordFanLink) connect(server *Server) (Transport, *ServerSession, error) 
 }
 
 func ordFanServer(h *ordH) *Server {
-	server := NewServer(&Implementation{Name: "s", Version: "1"}, &ServerOptions{
+	sopts := &ServerOptions{
 		RootsListChangedHandler:     func(context.Context, *RootsListChangedRequest) {},
 		ProgressNotificationHandler: func(context.Context, *ProgressNotificationServerRequest) {},
 		SubscribeHandler:            func(context.Context, *SubscribeRequest) error { return nil },
 		UnsubscribeHandler:          func(context.Context, *UnsubscribeRequest) error { return nil },
-	})
+	}
+	if strings.HasPrefix(h.c.tr, "sn") {
+		sopts.GetSessionID = func() string { return "" } // no session ids: every POST gets a temporary session
+	}
+	server := NewServer(&Implementation{Name: "s", Version: "1"}, sopts)
 	server.AddTool(&Tool{Name: "t", InputSchema: map[string]any{"type": "object"}}, func(ctx context.Context, req *CallToolRequest) (*CallToolResult, error) {
 		return &CallToolResult{Content: []Content{&TextContent{Text: "ok"}}}, nil
 	})
@@ -613,7 +617,7 @@ func ordRunFanCase(t *testing.T, out *verifOut, id string, c *ordCase) {
 // peer, issued without a pause.
 func ordGenFan(rng *rand.Rand, tr string, maxLen int) *ordCase {
 	c := &ordCase{tr: tr, np: 2 + rng.Intn(2)}
-	stateless := strings.HasPrefix(tr, "sl")
+	stateless := ordSessionless(tr)
 	c.dir = "c2s"
 	if !stateless && rng.Intn(2) == 0 {
 		c.dir = "s2c"
@@ -638,16 +642,7 @@ func ordGenFan(rng *rand.Rand, tr string, maxLen int) *ordCase {
 			}
 		}
 	}
-	dur := func() int {
-		switch rng.Intn(4) {
-		case 0:
-			return 0
-		case 1:
-			return 1 + rng.Intn(3)
-		default:
-			return 1 + rng.Intn(15)
-		}
-	}
+	dur := func() int { return ordDur(rng) }
 	gap := func() int {
 		if rng.Intn(3) == 0 {
 			return 1 + rng.Intn(9)
